@@ -38,7 +38,7 @@ func (fr *Frame) loopFrames(li *loopInfo) map[string][]Term {
 			bases[name] = nil
 		}
 	}
-	for b := range li.blocks {
+	for _, b := range sortedBlocks(li.blocks) {
 		for _, in := range b.Instrs {
 			switch x := in.(type) {
 			case *ssa.Store:
@@ -258,7 +258,7 @@ func (fr *Frame) stableSliceField(li *loopInfo, x ssa.Value, outside func(ssa.Va
 	if len(fnames) != 1 || fnames[0] == "*" {
 		return "", false
 	}
-	for b := range li.blocks {
+	for _, b := range sortedBlocks(li.blocks) {
 		for _, in := range b.Instrs {
 			switch y := in.(type) {
 			case *ssa.Store:
@@ -339,7 +339,7 @@ func (fr *Frame) appendOnlyField(li *loopInfo, x ssa.Value, outside func(ssa.Val
 		o, ok := a.(*ssa.FieldAddr)
 		return ok && o.X == fa.X && o.Field == fa.Field
 	}
-	for b := range li.blocks {
+	for _, b := range sortedBlocks(li.blocks) {
 		for _, in := range b.Instrs {
 			switch y := in.(type) {
 			case *ssa.Store:
